@@ -544,7 +544,7 @@ func runCase(r *common.Run, addrs []int, sched []string, class string) {
 		}
 		close(x.feedCh)
 		x.rs.In.Close()
-		x.rs.S.Close()
+		common.WithTimeout(200*time.Millisecond, func() { x.rs.S.Close() })
 	}()
 	for _, a := range sched {
 		x.act(a)
